@@ -560,6 +560,63 @@ def clauseGeneration (i : Input) : List String :=
       if gs.conds.any (·.gen ≠ g.gen) || gs.listeners.any (fun l => l.conds.any (·.gen ≠ g.gen))
       then ["generation:gateway@" ++ g.ns ++ "/" ++ g.name] else []
 
+/-- `reason`: the Gateway API reasons of a rejected L7 parentRef say what is the case (RouteConditionReason docs:
+NoMatchingParent = "no parent matches sectionName/port", NotAllowedByListeners = "not allowed by the listeners' allowedRoutes",
+NoMatchingListenerHostname = "no compatible listener whose hostname matches the route"), read over the objects:
+the listeners the parentRef selects by section name, those of them that allow the route's namespace and kind, and the
+hostname intersection. Only parentRefs to the winning Gateway without `port`. -/
+def clauseReason (i : Input) : List String :=
+  match i.winner with
+  | none => []
+  | some g =>
+    let gwListenersReported := match findGateway i.st g.ns g.name with
+      | some gs => !gs.listeners.isEmpty
+      | none => false
+    i.objs.routes.flatMap fun r =>
+      if r.kind = "TLSRoute" then [] else
+      (r.parentRefs.filter fun p => refersTo p r.ns g && p.port = none).flatMap fun p =>
+        match findEntry i r p with
+        | none => []
+        | some e =>
+          if isTrue e.conds "Accepted" then [] else
+          let why := reasonOf e.conds "Accepted"
+          let named := g.listeners.filter (selectsListener p)
+          let selected := (attachableOf i g).filter (selectsListener p)
+          -- a Selector listener and a namespace the cluster state does not know: not interpreted here
+          let uninterpreted := selected.any fun l => l.fromNs = "Selector" && !(i.objs.namespaces.any (·.name = r.ns))
+          let allowed := selected.filter fun l => nsAllowed l r.ns g.ns i.objs.namespaces && kindAllowed l r.kind
+          if why = "NoMatchingParent" && !named.isEmpty then
+            ["reason:NoMatchingParent-but-listener-exists" ++ (if gwListenersReported then "" else ":invalid-gateway") ++ "@" ++ r.key]
+          else if uninterpreted then []
+          else if why = "NotAllowedByListeners" && !allowed.isEmpty then
+            ["reason:NotAllowedByListeners-but-a-selected-listener-allows@" ++ r.key]
+          else if why = "NoMatchingListenerHostname" && allowed.isEmpty then
+            ["reason:NoMatchingListenerHostname-but-no-selected-listener-allows@" ++ r.key]
+          else if why = "NoMatchingListenerHostname" && allowed.any (fun l => !(acceptedHosts l.hostname r.hostnames).isEmpty) then
+            ["reason:NoMatchingListenerHostname-but-hostnames-intersect@" ++ r.key]
+          else []
+
+/-- `reason` for parentRefs to an IGNORED Gateway of our class: NoMatchingParent is untrue when that Gateway has the named
+listener (the implementation looks the section name up among the WINNING Gateway's listeners) -/
+def clauseReasonIgnored (i : Input) : List String :=
+  match i.winner with
+  | none => []
+  | some w =>
+    i.objs.routes.flatMap fun r =>
+      if r.kind = "TLSRoute" then [] else
+      r.parentRefs.flatMap fun p =>
+        if p.port.isSome then [] else
+        match i.ours.find? (fun g => refersTo p r.ns g && !(g.ns = w.ns && g.name = w.name)) with
+        | none => []
+        | some g =>
+          match findEntry i r p with
+          | none => []
+          | some e =>
+            if !isTrue e.conds "Accepted" && reasonOf e.conds "Accepted" = "NoMatchingParent" &&
+                g.listeners.any (selectsListener p) then
+              ["reason:NoMatchingParent-but-listener-exists:ignored-gateway@" ++ r.key]
+            else []
+
 /-- inputs the oracle does not interpret -/
 def skipReason (i : Input) : Option String :=
   if i.objs.gateways.any (fun g => g.listeners.any (·.selExprs > 0)) then some "matchExpressions"
@@ -569,6 +626,6 @@ def skipReason (i : Input) : Option String :=
 
 def judge (i : Input) : List String :=
   clauseEntries i ++ clauseAccepted i ++ clauseAttached i ++ clauseResolved i ++ clauseProgrammed i ++
-    clausePolicies i ++ clauseGeneration i
+    clausePolicies i ++ clauseGeneration i ++ clauseReason i ++ clauseReasonIgnored i
 
 end NGF.StatusJudge
